@@ -852,6 +852,115 @@ func checkPos(c PosCell, res *result) {
 	}
 }
 
+// checkStrictNested: where unknown fields are refused they are refused at every depth - also inside the elements of a
+// params array (which become the values of the rewritten object verbatim), for each way strictness comes about:
+// SetStrict, a DisallowUnknownFields method on the parameter type, Positional.
+type nInner struct {
+	X  int           `json:"x"`
+	Ys []nY          `json:"ys"`
+	P  *nY           `json:"p"`
+	M  map[string]nY `json:"m"`
+}
+type nY struct {
+	Y int `json:"y"`
+}
+type nOuter struct {
+	In nInner `json:"in"`
+	N  int    `json:"n"`
+}
+type nOuterD nOuter
+
+func (nOuterD) DisallowUnknownFields() {}
+
+func checkStrictNested(prop string, res *result) {
+	calls := 0
+	hs := map[string]jrpc2.Handler{}
+	if prop == "C15" {
+		fi, _ := handler.Check(func(_ context.Context, v nOuter) (int, error) { calls++; return v.N, nil })
+		hs["strict"] = fi.SetStrict(true).Wrap()
+		fi2, _ := handler.Check(func(_ context.Context, v nOuter) (int, error) { calls++; return v.N, nil })
+		hs["lax"] = fi2.Wrap()
+		hs["method"] = handler.New(func(_ context.Context, v nOuterD) (int, error) { calls++; return v.N, nil })
+		hs["method-ptr"] = handler.New(func(_ context.Context, v *nOuterD) (int, error) { calls++; return v.N, nil })
+	} else {
+		hs["positional"] = handler.NewPos(func(_ context.Context, in nInner, n int) (int, error) { calls++; return n, nil }, "in", "n")
+	}
+	inners := []struct {
+		text string
+		bad  bool
+	}{{`{"x":1}`, false}, {`{"x":1,"zzz":2}`, true}, {`{"x":1,"ys":[{"y":1},{"y":2,"zzz":0}]}`, true}, {`{"p":{"y":1,"q":null}}`, true},
+		{`{"m":{"k":{"y":1,"zzz":[]}}}`, true}, {`{"ys":[],"p":null,"m":{}}`, false}}
+	for name, h := range hs {
+		for _, in := range inners {
+			for _, form := range []string{"array", "object"} {
+				params := fmt.Sprintf(`[%s, 4]`, in.text)
+				if form == "object" {
+					params = fmt.Sprintf(`{"in": %s, "n": 4}`, in.text)
+				}
+				calls = 0
+				v, herr, p := callSafely(h, mkReq(params))
+				res.Evaluations++
+				res.Classes["nested/"+name]++
+				cell := "nested unknown field, handler " + name + ", " + form + " form"
+				refuse := in.bad && name != "lax"
+				switch {
+				case p != nil:
+					res.add(prop, cell, params, fmt.Sprintf("wrapper panicked: %v", p))
+				case refuse && (calls != 0 || !isInvalidParams(herr)):
+					res.add(prop, cell, params, fmt.Sprintf("err=%v, %d calls; want InvalidParams without a call", herr, calls))
+				case !refuse && (herr != nil || calls != 1 || fmt.Sprint(v) != "4"):
+					res.add(prop, cell, params, fmt.Sprintf("(%v, %v), %d calls; want one call returning 4", v, herr, calls))
+				}
+			}
+		}
+	}
+}
+
+// checkPosRewrap: a handler is what its FuncInfo said when Wrap was called. The setters return their receiver, so a
+// second variant built from the same FuncInfo (fi.SetStrict(false).Wrap(), fi.AllowArray(false).Wrap()) changes the
+// FuncInfo - and must not change the handler that exists already (arrays of n elements, objects with the given names
+// only: that is what Positional promised for it).
+func checkPosRewrap(res *result) {
+	for variant := 0; variant < 3; variant++ {
+		calls := 0
+		var last [2]int
+		fi, err := handler.Positional(func(_ context.Context, a, b int) (int, error) { calls++; last = [2]int{a, b}; return a + b, nil }, "a", "b")
+		if err != nil {
+			res.add("C16", "Positional, re-wrapped", "", "Positional rejected a documented signature: "+err.Error())
+			return
+		}
+		h := fi.Wrap()
+		switch variant {
+		case 0:
+			_ = fi.SetStrict(false).Wrap()
+		case 1:
+			_ = fi.AllowArray(false).Wrap()
+		case 2:
+			_ = fi.SetStrict(false).AllowArray(false).Wrap()
+		}
+		for _, c := range []struct {
+			params string
+			ok     bool
+		}{{`[5,3]`, true}, {`{"a":5,"b":3}`, true}, {`{"a":5,"b":3,"zzz":1}`, false}, {`[5]`, false}, {`{"a":5}`, true}} {
+			calls = 0
+			v, herr, p := callSafely(h, mkReq(c.params))
+			res.Evaluations++
+			res.Classes["pos/rewrap"]++
+			cell := fmt.Sprintf("Positional(func(ctx, a, b int)), FuncInfo reconfigured after Wrap (variant %d)", variant)
+			switch {
+			case p != nil:
+				res.add("C16", cell, c.params, fmt.Sprintf("wrapper panicked: %v", p))
+			case c.ok && (herr != nil || calls != 1):
+				res.add("C16", cell, c.params, fmt.Sprintf("err=%v, %d calls; want exactly one call", herr, calls))
+			case c.ok && c.params != `{"a":5}` && (last != [2]int{5, 3} || fmt.Sprint(v) != "8"):
+				res.add("C16", cell, c.params, fmt.Sprintf("function saw %v and the handler returned %v", last, v))
+			case !c.ok && (calls != 0 || !isInvalidParams(herr)):
+				res.add("C16", cell, c.params, fmt.Sprintf("err=%v, %d calls; want InvalidParams without a call", herr, calls))
+			}
+		}
+	}
+}
+
 // checkPosUnnamed: name lists with a slot that has no name ("" or "-": such an argument cannot be given by key).  The exact
 // length rule of the array form is about the n arguments, not about the names that happen to be usable as keys; the object
 // form knows the remaining names only.  (What an array of exactly n elements does in the presence of such a slot is
@@ -1260,6 +1369,7 @@ func TestAdapt(t *testing.T) {
 			checkOverlap("C15", res)
 			checkParallel("C15", res)
 			checkResultTypes(res)
+			checkStrictNested("C15", res)
 			res.Samples = append(res.Samples, "func(context.Context, S2) (any, error) with params [7,\"x\"], strict, AllowArray", "func(context.Context, ...[]int) int")
 		}
 		if which == "C16" {
@@ -1267,6 +1377,8 @@ func TestAdapt(t *testing.T) {
 			checkParallel("C16", res)
 			checkArgsElementwise(res)
 			checkPosUnnamed(res)
+			checkPosRewrap(res)
+			checkStrictNested("C16", res)
 			for _, c := range tab.Pos {
 				res.Cells++
 				checkPos(c, res)
